@@ -50,6 +50,26 @@ def run(run):
     all_classes = schema_classes()
     missing = sorted(c for c in all_classes if c not in classes)
     run.cov["streams"]["objects"]["concrete_node_classes_never_produced"] = missing[:40]
+    # near-identical pairs: one word changed in letter case / one name or literal replaced
+    pairs = []
+    for d, s_ in cases[: (150 if tier_q else 3000)]:
+        ws = sqlgen.split_words(s_)
+        idx = [i for i, w_ in enumerate(ws) if w_[:1].isalpha() or w_[:1].isdigit()]
+        if not idx:
+            continue
+        i = run.rng.choice(idx)
+        k = run.rng.random()
+        w2 = ws[i].swapcase() if k < 0.6 else (ws[i] + "x" if ws[i][:1].isalpha() else ws[i] + "0")
+        pairs.append((d, s_, " ".join(ws[:i] + [w2] + ws[i + 1:])))
+    reqs_q = ["PAIR11 %s %s | %s" % (d, stmt.cps(" ".join(sqlgen.split_words(a))), stmt.cps(b)) for d, a, b in pairs]
+    im_q = core.run_impl(reqs_q)
+    npair = 0
+    for (d, a, b), r_, rq in zip(pairs, im_q, reqs_q):
+        if r_ == "OK":
+            npair += 1
+        elif r_.startswith("FAIL"):
+            fails.append({"kind": "input", "stream": "objects", "text": a + "  ~  " + b, "dialect": d, "request": rq, "oracle_verdict": r_[5:]})
+    run.add_stream("near-identical pairs", len(pairs), npair, [{"a": pairs[0][1][:100], "b": pairs[0][2][:100]}] if pairs else [])
     # helpers on real objects + model
     mysql_types, hashmap = c18.tables()
     hcases = []
@@ -74,6 +94,29 @@ def run(run):
                 v = "helper result holds a list"
         if v:
             fails.append({"kind": "input", "stream": "helpers", "text": t, "ops": ops, "request": rq, "oracle_verdict": v})
+    # set_with_clauses on single and compound SELECTs
+    withs = ["WITH w AS (SELECT a FROM t) SELECT 1", "WITH w1 AS (SELECT 1), w2 AS (SELECT b FROM w1 UNION SELECT c FROM u) SELECT 2", "SELECT 3",
+             "WITH w AS (SELECT 1) INSERT INTO t SELECT * FROM w"]
+    sels = [s for d, s in cases if s.upper().lstrip().startswith(("SELECT", "WITH"))][: (60 if tier_q else 1200)]
+    sels += ["SELECT a FROM t UNION ALL SELECT b FROM u", "SELECT a FROM t EXCEPT SELECT b FROM u INTERSECT SELECT c FROM v",
+             "WITH x AS (SELECT 1) SELECT a FROM x UNION SELECT b FROM u MINUS SELECT 3"]
+    reqs_w = ["SETWITH DEFAULT %s | %s" % (stmt.cps(run.rng.choice(withs)), stmt.cps(s)) for s in sels]
+    mo_w = core.run_model(reqs_w)
+    im_w = core.run_impl(reqs_w)
+    dis += stmt.tie(run, "SETWITH", reqs_w, mo_w, im_w, sels)
+    for s_, a, rq in zip(sels, im_w, reqs_w):
+        v = None
+        if a.startswith("OK !"):
+            v = "set_with_clauses misbehaves: " + a[4:]
+        elif a.startswith("OK ") and not a.endswith("| hashable"):
+            v = "result of set_with_clauses is not hashable"
+        elif a.startswith("OK ") and "[" in a:
+            v = "result of set_with_clauses holds a list"
+        elif a.startswith("HELPERR"):
+            v = "set_with_clauses raised " + a
+        if v:
+            fails.append({"kind": "input", "stream": "helpers", "text": s_, "request": rq, "oracle_verdict": v})
+    run.add_stream("set_with_clauses", len(sels), len(set(sels)), [])
     run.add_stream("helpers", len(hcases), okh, [{"ddl": t[:160], "helpers": ops} for t, ops in hcases[:2]])
     run.cov["rule"] = ("generated statements of every kind x dialects: every node of every returned tree is probed on the real objects (setattr, delattr, new "
                        "attribute, field value types, hash, == / hash against an independently parsed copy, == vs structure on node pairs); helper histories on "
